@@ -18,7 +18,7 @@ def all_cases(tier):
         ("_UpConverter(4->8)", S.c_up, 2, 4, False), ("_UpConverter(2->8,rev)", S.c_up, 4, 2, True), ("_UpConverter(2->6)", S.c_up, 3, 2, False),
         ("Converter(4->8)", S.c_converter, 4, 8), ("Converter(8->4,rev)", S.c_converter, 8, 4, True), ("Converter(4->4)", S.c_converter, 4, 4),
         ("StrideConverter(down)", S.c_stride, True, False), ("StrideConverter(down,param)", S.c_stride, True, True),
-        ("StrideConverter(up)", S.c_stride, False, False), ("StrideConverter(up,param=True)", S.c_stride, False, True),
+        ("StrideConverter(up)", S.c_stride, False, False), ("StrideConverter(down,fields in another order)", S.c_stride, True, False, True), ("StrideConverter(up,param=True)", S.c_stride, False, True),
         ("Unpack(2)", S.c_unpack, 2, False, False), ("Unpack(3,rev,param)", S.c_unpack, 3, True, True),
         ("Pack(2,param)", S.c_pack, 2, False, True), ("Pack(3,rev)", S.c_pack, 3, True, False),
         ("Gate", S.c_gate), ("Gate(sink_ready_when_disabled)", S.c_gate, True), ("Multiplexer(3)", S.c_mux, 3), ("Multiplexer(2)", S.c_mux, 2), ("Demultiplexer(3)", S.c_demux, 3), ("Cast", S.c_cast),
